@@ -280,6 +280,12 @@ macro_rules! fmt_path {
                 if field != ve || indexed != ve {
                     s.push_str(" PATH.EDGES-OR-INDEXING-DIFFERS-FROM-TO_VEC_EDGES");
                 }
+                // iter_nodes() yields the very nodes to_vec_nodes() returns, in the same order
+                let it_nodes = p.iter_nodes().map(|n| format!("{}", n.key())).collect::<Vec<_>>();
+                let vec_nodes = p.to_vec_nodes().iter().map(|n| format!("{}", n.key())).collect::<Vec<_>>();
+                if it_nodes != vec_nodes {
+                    s.push_str(" ITER_NODES-DIFFERS-FROM-TO_VEC_NODES");
+                }
                 s
             }
         }
@@ -306,8 +312,11 @@ macro_rules! with_method {
     ($b:expr, $meth:expr, $ff:expr, $fe:expr, $nf:expr, $ne:expr, $variant:expr) => {{
         let b = $b;
         match $meth {
-            Meth::Filter if $variant % 2 == 1 => b.for_each($ne).filter($ff),
-            Meth::Each if $variant % 2 == 1 => b.filter($nf).for_each($fe),
+            Meth::Filter if $variant == 1 => b.for_each($ne).filter($ff),
+            Meth::Each if $variant == 1 => b.filter($nf).for_each($fe),
+            // the SAME setter twice: the later closure replaces the earlier one, it does not chain with it
+            Meth::Filter if $variant == 3 => b.filter($nf).filter($ff),
+            Meth::Each if $variant == 3 => b.for_each($ne).for_each($fe),
             Meth::Filter => b.filter($ff),
             Meth::Each => b.for_each($fe),
             Meth::None => b,
